@@ -145,8 +145,25 @@ def register(hub, exhaustive: bool, rng, prop="C04", max_pairs=24):
             if d is not None:
                 viol(call, f"entries-differ-between-storage-orders:{d[0]}", diff=list(d[1:]), **desc)
                 return False
-        elif isinstance(primary, np.ndarray):
-            pass  # bare value arrays are positional: not comparable by label here
+        elif isinstance(primary, np.ndarray) and desc.get("values_layout") is not None:
+            # a bare value array: its axes follow a documented order, so entries can be compared under their labels
+            lay_a, lay_b, items_of = desc["values_layout"]
+            if not isinstance(prm_result, np.ndarray) or prm_result.shape != tuple(len(items_of[l]) for l in lay_b):
+                viol(call, "values-layout-does-not-follow-the-documented-rule", got=list(np.shape(prm_result)), expected_axes=list(lay_b), **{k_: v_ for k_, v_ in desc.items() if k_ != "values_layout"})
+                return False
+            def lab(arr, lay):
+                out = {}
+                for idx in np.ndindex(*arr.shape):
+                    out[frozenset((lay[k_], items_of[lay[k_]][i_]) for k_, i_ in enumerate(idx))] = arr[idx]
+                return out
+            if primary.shape != tuple(len(items_of[l]) for l in lay_a):
+                return True  # the primary run itself is judged by the reduce oracle
+            A, B = lab(primary, lay_a), lab(prm_result, lay_b)
+            vals = [abs(float(v)) for v in A.values() if v == v and abs(float(v)) != float("inf")]
+            d = same_entries(A, B, exact, max(max(vals) if vals else 1.0, scale_floor))
+            if d is not None:
+                viol(call, f"entries-differ-between-storage-orders:{d[0]}", diff=list(d[1:]), **{k_: v_ for k_, v_ in desc.items() if k_ != "values_layout"})
+                return False
         return True
 
     # ------------------------------------------------------------------ binary arithmetic
@@ -235,8 +252,14 @@ def register(hub, exhaustive: bool, rng, prop="C04", max_pairs=24):
                     r, e = outcome(lambda: getattr(xp, method)(*args, **kwargs))
                     exp = rule(call, xs, px, args, kwargs)
                 n += 1
-                floor = in_scale(xs) if method in ("sum_to", "sum_over", "cumsum") else 0.0
-                if not judge(call, method, call.result, call.exc, r, e, exp, exact, dict(x_order=list(px), target_order=list(pt) if pt else None, x_dims=list(xs.letters), args=repr(args)[:100]), scale_floor=floor):
+                floor = in_scale(xs) if method in ("sum_to", "sum_over", "cumsum", "sum_values_over", "sum_values_to") else 0.0
+                desc = dict(x_order=list(px), target_order=list(pt) if pt else None, x_dims=list(xs.letters), args=repr(args)[:100])
+                if method in ("sum_values_over", "sum_values_to"):
+                    lay_primary = rule(call, xs, xs.letters, args, kwargs)
+                    if lay_primary is None or exp is None:
+                        exp_for = None
+                    desc["values_layout"] = None if (lay_primary is None or exp is None) else (list(lay_primary), list(exp), {l: xs.items[xs.letters.index(l)] for l in xs.letters})
+                if not judge(call, method, call.result, call.exc, r, e, exp, exact, desc, scale_floor=floor):
                     break
             if n:
                 rec.event(M, sig=f"{method}|{''.join(xs.letters)}:{xs.shape}|{repr(args)[:60]}|{'' if tds is None else ''.join(tds.letters)}", cls=f"{method}|{'all-orders' if full else 'sampled-orders'}|{'exact' if exact else 'real'}", n=n)
@@ -258,6 +281,8 @@ def register(hub, exhaustive: bool, rng, prop="C04", max_pairs=24):
 
     hub.on("FlodymArray.sum_to", o_unary_method("sum_to", lambda call, xs, px, a, k: resolve(xs, a[0] if a else k.get("result_dims", ()))))
     hub.on("FlodymArray.sum_over", o_unary_method("sum_over", lambda call, xs, px, a, k: (lambda so: None if so is None else [l for l in px if l not in so])(resolve(xs, a[0] if a else k.get("sum_over_dims", ())))))
+    hub.on("FlodymArray.sum_values_to", o_unary_method("sum_values_to", lambda call, xs, px, a, k: resolve(xs, a[0] if a else k.get("result_dims", ()))))
+    hub.on("FlodymArray.sum_values_over", o_unary_method("sum_values_over", lambda call, xs, px, a, k: (lambda so: None if so is None else [l for l in px if l not in so])(resolve(xs, a[0] if a else k.get("sum_over_dims", ())))))
     hub.on("FlodymArray.cumsum", o_unary_method("cumsum", lambda call, xs, px, a, k: list(px)))
     hub.on("FlodymArray.get_shares_over", o_unary_method("get_shares_over", lambda call, xs, px, a, k: list(px)))
     hub.on("FlodymArray.cast_to", o_unary_method("cast_to", None))
